@@ -53,12 +53,12 @@ var defaultExecPkgs = map[string]bool{
 }
 
 var defaultExecFuncs = map[string]bool{
-	"(reflect.StructTag).Lookup": true,
-	"(reflect.StructTag).Get":    true,
+	"(reflect.StructTag).Lookup":  true,
+	"(reflect.StructTag).Get":     true,
 	"errors.New":                  true,
 	"(*errors.errorString).Error": true,
 	"errors.Unwrap":               true,
-	"(*sync.Once).Do":            false,
+	"(*sync.Once).Do":             false,
 }
 
 func (e *Engine) pkgExecutable(path string) bool {
@@ -137,6 +137,16 @@ func init() {
 			panic(pathAbort{kind: abortAssertFail, msg: "vUnreachable: " + a[0].(string)})
 		},
 		"vSymbolic": func(fr *frame, a []value) value { return true },
+		// vOverride(name, fn): calls to the function whose SSA name is name
+		// are redirected to fn for the rest of the path (a harness-level stub).
+		"vOverride": func(fr *frame, a []value) value {
+			if fr.i.overrides == nil {
+				fr.i.overrides = map[string]value{}
+			}
+			fr.i.overrides[a[0].(string)] = a[1].(iface).v
+			fr.i.modelsHit["harness stub for "+a[0].(string)] = true
+			return nil
+		},
 		// non-forking boolean connectives and range test
 		"vAnd": func(fr *frame, a []value) value { return fromTerm(mkAnd(termOf(a[0]), termOf(a[1])), types.Bool) },
 		"vOr":  func(fr *frame, a []value) value { return fromTerm(mkOr(termOf(a[0]), termOf(a[1])), types.Bool) },
@@ -571,8 +581,11 @@ func ext۰strings۰Builder۰Len(fr *frame, args []value) value {
 	return len(cur)
 }
 
-func ext۰strings۰Builder۰Grow(fr *frame, args []value) value  { return nil }
-func ext۰strings۰Builder۰Reset(fr *frame, args []value) value { *builderBuf(args) = []value(nil); return nil }
+func ext۰strings۰Builder۰Grow(fr *frame, args []value) value { return nil }
+func ext۰strings۰Builder۰Reset(fr *frame, args []value) value {
+	*builderBuf(args) = []value(nil)
+	return nil
+}
 
 // io.Copy(dst, src) for the reader/writer pairs the repo uses.
 func ext۰io۰Copy(fr *frame, args []value) value {
@@ -1413,86 +1426,88 @@ func ext۰errors۰Is(fr *frame, args []value) value {
 	return false
 }
 
-func ext۰unicode۰IsLower(fr *frame, args []value) value { return unicodePred(unicode.IsLower)(fr, args) }
+func ext۰unicode۰IsLower(fr *frame, args []value) value {
+	return unicodePred(unicode.IsLower)(fr, args)
+}
 
 func registerModels() {
 	for k, v := range map[string]externalFn{
-		"strings.Count":                   ext۰strings۰Count,
-		"strings.Index":                   ext۰strings۰Index,
-		"strings.LastIndex":               ext۰strings۰LastIndex,
-		"strings.IndexByte":               ext۰strings۰IndexByte,
-		"strings.LastIndexByte":           ext۰strings۰LastIndexByte,
-		"strings.Contains":                ext۰strings۰Contains,
-		"strings.EqualFold":               ext۰strings۰EqualFold,
-		"strings.ToUpper":                 ext۰strings۰ToUpper,
-		"strings.ToLower":                 ext۰strings۰ToLower,
-		"strings.Repeat":                  ext۰strings۰Repeat,
-		"strings.Join":                    ext۰strings۰Join,
-		"strings.Split":                   ext۰strings۰Split,
-		"strings.Replace":                 ext۰strings۰Replace,
-		"strings.ReplaceAll":              ext۰strings۰ReplaceAll,
-		"strings.TrimSpace":               ext۰strings۰TrimSpace,
-		"strings.Fields":                  ext۰strings۰Fields,
-		"(*strings.Builder).WriteString":  ext۰strings۰Builder۰WriteString,
-		"(*strings.Builder).WriteByte":    ext۰strings۰Builder۰WriteByte,
-		"(*strings.Builder).WriteRune":    ext۰strings۰Builder۰WriteRune,
-		"(*strings.Builder).Write":        ext۰strings۰Builder۰Write,
-		"(*strings.Builder).String":       ext۰strings۰Builder۰String,
-		"(*strings.Builder).Len":          ext۰strings۰Builder۰Len,
-		"(*strings.Builder).Grow":         ext۰strings۰Builder۰Grow,
-		"(*strings.Builder).Reset":        ext۰strings۰Builder۰Reset,
-		"internal/bytealg.IndexByteString": func(fr *frame, a []value) value { return ext۰strings۰IndexByte(fr, a) },
-		"internal/bytealg.IndexByte":      ext۰bytealg۰IndexByte,
-		"internal/bytealg.CountString":    ext۰bytealg۰CountString,
-		"internal/bytealg.Count":          ext۰bytealg۰Count,
-		"internal/bytealg.IndexString":    ext۰bytealg۰IndexString,
-		"internal/stringslite.Index":      ext۰strings۰Index,
-		"internal/stringslite.IndexByte":  ext۰strings۰IndexByte,
-		"bytes.Equal":                     ext۰bytes۰Equal,
-		"bytes.IndexByte":                 ext۰bytes۰IndexByte,
-		"io.Copy":                         ext۰io۰Copy,
-		"unicode.IsLower":                 unicodePred(unicode.IsLower),
-		"unicode.IsUpper":                 unicodePred(unicode.IsUpper),
-		"unicode.IsLetter":                unicodePred(unicode.IsLetter),
-		"unicode.IsDigit":                 unicodePred(unicode.IsDigit),
-		"unicode.IsSpace":                 unicodePred(unicode.IsSpace),
-		"unicode.IsPrint":                 unicodePred(unicode.IsPrint),
-		"unicode.IsGraphic":               unicodePred(unicode.IsGraphic),
-		"unicode.ToUpper":                 unicodeMap(unicode.ToUpper),
-		"unicode.ToLower":                 unicodeMap(unicode.ToLower),
-		"unicode.SimpleFold":              unicodeMap(unicode.SimpleFold),
-		"unicode/utf8.DecodeRuneInString": ext۰utf8۰DecodeRuneInString,
-		"unicode/utf8.DecodeRune":         ext۰utf8۰DecodeRune,
-		"unicode/utf8.DecodeLastRuneInString": ext۰utf8۰DecodeLastRuneInString,
-		"unicode/utf8.RuneCountInString":  ext۰utf8۰RuneCountInString,
-		"strconv.ParseInt":                ext۰strconv۰ParseInt,
-		"strconv.ParseUint":               ext۰strconv۰ParseUint,
-		"strconv.ParseFloat":              ext۰strconv۰ParseFloat,
-		"strconv.Atoi":                    ext۰strconv۰Atoi,
-		"strconv.Itoa":                    ext۰strconv۰Itoa,
-		"strconv.Quote":                   ext۰strconv۰Quote,
-		"sort.Strings":                    ext۰sort۰Strings,
-		"sort.Ints":                       ext۰sort۰Ints,
-		"(*sync.Map).Load":                ext۰sync۰Map۰Load,
-		"(*sync.Map).Store":               ext۰sync۰Map۰Store,
-		"regexp.Compile":                  ext۰regexp۰Compile,
-		"regexp.MustCompile":              ext۰regexp۰MustCompile,
-		"regexp.QuoteMeta":                ext۰regexp۰QuoteMeta,
-		"(*regexp.Regexp).String":         ext۰regexp۰Regexp۰String,
-		"(*regexp.Regexp).NumSubexp":      ext۰regexp۰Regexp۰NumSubexp,
+		"strings.Count":                            ext۰strings۰Count,
+		"strings.Index":                            ext۰strings۰Index,
+		"strings.LastIndex":                        ext۰strings۰LastIndex,
+		"strings.IndexByte":                        ext۰strings۰IndexByte,
+		"strings.LastIndexByte":                    ext۰strings۰LastIndexByte,
+		"strings.Contains":                         ext۰strings۰Contains,
+		"strings.EqualFold":                        ext۰strings۰EqualFold,
+		"strings.ToUpper":                          ext۰strings۰ToUpper,
+		"strings.ToLower":                          ext۰strings۰ToLower,
+		"strings.Repeat":                           ext۰strings۰Repeat,
+		"strings.Join":                             ext۰strings۰Join,
+		"strings.Split":                            ext۰strings۰Split,
+		"strings.Replace":                          ext۰strings۰Replace,
+		"strings.ReplaceAll":                       ext۰strings۰ReplaceAll,
+		"strings.TrimSpace":                        ext۰strings۰TrimSpace,
+		"strings.Fields":                           ext۰strings۰Fields,
+		"(*strings.Builder).WriteString":           ext۰strings۰Builder۰WriteString,
+		"(*strings.Builder).WriteByte":             ext۰strings۰Builder۰WriteByte,
+		"(*strings.Builder).WriteRune":             ext۰strings۰Builder۰WriteRune,
+		"(*strings.Builder).Write":                 ext۰strings۰Builder۰Write,
+		"(*strings.Builder).String":                ext۰strings۰Builder۰String,
+		"(*strings.Builder).Len":                   ext۰strings۰Builder۰Len,
+		"(*strings.Builder).Grow":                  ext۰strings۰Builder۰Grow,
+		"(*strings.Builder).Reset":                 ext۰strings۰Builder۰Reset,
+		"internal/bytealg.IndexByteString":         func(fr *frame, a []value) value { return ext۰strings۰IndexByte(fr, a) },
+		"internal/bytealg.IndexByte":               ext۰bytealg۰IndexByte,
+		"internal/bytealg.CountString":             ext۰bytealg۰CountString,
+		"internal/bytealg.Count":                   ext۰bytealg۰Count,
+		"internal/bytealg.IndexString":             ext۰bytealg۰IndexString,
+		"internal/stringslite.Index":               ext۰strings۰Index,
+		"internal/stringslite.IndexByte":           ext۰strings۰IndexByte,
+		"bytes.Equal":                              ext۰bytes۰Equal,
+		"bytes.IndexByte":                          ext۰bytes۰IndexByte,
+		"io.Copy":                                  ext۰io۰Copy,
+		"unicode.IsLower":                          unicodePred(unicode.IsLower),
+		"unicode.IsUpper":                          unicodePred(unicode.IsUpper),
+		"unicode.IsLetter":                         unicodePred(unicode.IsLetter),
+		"unicode.IsDigit":                          unicodePred(unicode.IsDigit),
+		"unicode.IsSpace":                          unicodePred(unicode.IsSpace),
+		"unicode.IsPrint":                          unicodePred(unicode.IsPrint),
+		"unicode.IsGraphic":                        unicodePred(unicode.IsGraphic),
+		"unicode.ToUpper":                          unicodeMap(unicode.ToUpper),
+		"unicode.ToLower":                          unicodeMap(unicode.ToLower),
+		"unicode.SimpleFold":                       unicodeMap(unicode.SimpleFold),
+		"unicode/utf8.DecodeRuneInString":          ext۰utf8۰DecodeRuneInString,
+		"unicode/utf8.DecodeRune":                  ext۰utf8۰DecodeRune,
+		"unicode/utf8.DecodeLastRuneInString":      ext۰utf8۰DecodeLastRuneInString,
+		"unicode/utf8.RuneCountInString":           ext۰utf8۰RuneCountInString,
+		"strconv.ParseInt":                         ext۰strconv۰ParseInt,
+		"strconv.ParseUint":                        ext۰strconv۰ParseUint,
+		"strconv.ParseFloat":                       ext۰strconv۰ParseFloat,
+		"strconv.Atoi":                             ext۰strconv۰Atoi,
+		"strconv.Itoa":                             ext۰strconv۰Itoa,
+		"strconv.Quote":                            ext۰strconv۰Quote,
+		"sort.Strings":                             ext۰sort۰Strings,
+		"sort.Ints":                                ext۰sort۰Ints,
+		"(*sync.Map).Load":                         ext۰sync۰Map۰Load,
+		"(*sync.Map).Store":                        ext۰sync۰Map۰Store,
+		"regexp.Compile":                           ext۰regexp۰Compile,
+		"regexp.MustCompile":                       ext۰regexp۰MustCompile,
+		"regexp.QuoteMeta":                         ext۰regexp۰QuoteMeta,
+		"(*regexp.Regexp).String":                  ext۰regexp۰Regexp۰String,
+		"(*regexp.Regexp).NumSubexp":               ext۰regexp۰Regexp۰NumSubexp,
 		"(*regexp.Regexp).FindStringSubmatchIndex": ext۰regexp۰Regexp۰FindStringSubmatchIndex,
 		"(*regexp.Regexp).FindStringSubmatch":      ext۰regexp۰Regexp۰FindStringSubmatch,
 		"(*regexp.Regexp).FindStringIndex":         ext۰regexp۰Regexp۰FindStringIndex,
 		"(*regexp.Regexp).MatchString":             ext۰regexp۰Regexp۰MatchString,
 		"(*regexp.Regexp).ReplaceAllStringFunc":    ext۰regexp۰Regexp۰ReplaceAllStringFunc,
-		"fmt.Sprintf":                     ext۰fmt۰Sprintf,
-		"fmt.Errorf":                      ext۰fmt۰Errorf,
-		"fmt.Sprint":                      ext۰fmt۰Sprint,
-		"fmt.Fprintf":                     ext۰fmt۰Fprintf,
-		"(*fmt.wrapError).Error":          ext۰fmt۰wrapError۰Error,
-		"(*fmt.wrapError).Unwrap":         ext۰fmt۰wrapError۰Unwrap,
-		"(reflect.Kind).String":           ext۰reflect۰Kind۰String,
-		"errors.Is":                       ext۰errors۰Is,
+		"fmt.Sprintf":                              ext۰fmt۰Sprintf,
+		"fmt.Errorf":                               ext۰fmt۰Errorf,
+		"fmt.Sprint":                               ext۰fmt۰Sprint,
+		"fmt.Fprintf":                              ext۰fmt۰Fprintf,
+		"(*fmt.wrapError).Error":                   ext۰fmt۰wrapError۰Error,
+		"(*fmt.wrapError).Unwrap":                  ext۰fmt۰wrapError۰Unwrap,
+		"(reflect.Kind).String":                    ext۰reflect۰Kind۰String,
+		"errors.Is":                                ext۰errors۰Is,
 	} {
 		externals[k] = v
 	}
